@@ -21,6 +21,21 @@ CHECKS = {
          "All interleavings of 2-3 threads x 2 calls on a real IDSequence (every range 0<=min<=max<=3 and 0xFFFE..0xFFFF), on a real TransactionStore (one forced key per key space) and on ClientState; each call/return history is checked for linearizability against a sequential reference with porcupine; plus the full uint16 ranges once sequentially.",
          "Sequentially consistent memory; points at the shim mutex/atomic and at the guarded fields (so that a narrowed or removed lock is observable).",
          "3 C29"),
+ "C20": ("exploration",
+         "bounded-exhaustive input enumeration of the real decoder under recover (all strings of length <=3; structural domain beyond)",
+         "packets1.ReadPacket is called under recover() on every byte string of length 0..2, every string of length 3 (quick: first byte in {0,1,2,3,255}; thorough: all 16.7M) and on a structural domain for longer datagrams: both header forms x misleading announced lengths x all 256 type bytes x body lengths across every length comparison in the decoders (thorough: up to 8190) x the first two body bytes over the ranges the decoders branch on x filler {00,FF}. Exhaustive over that stated finite domain, not sampled.",
+         "Completeness for longer inputs rests on the reading that decoders branch only on the datagram length and on the enumerated control bytes. Coverage-guided fuzzing (named in the property's quantifier) is sampling and is not used; inputs outside the domain are not covered.",
+         "3 C20"),
+ "C21": ("exploration",
+         "bounded-exhaustive enumeration of constructor arguments; Pack/ReadPacket round trip compared field by field and with an independent reference encoder",
+         "For every packet constructor: all flag combinations, each 16-bit field over its full range (one at a time), variable parts of every length across the 255/256 header-form boundary and up to MaxPayloadLength; round trip equality, length field = datagram size, one-byte form iff size <= 255, byte-identical to refsn.Encode; all 65536 short-topic ids in both directions.",
+         "Legal ranges as documented by the constructors; refsn written from the MQTT-SN 1.2 field tables.",
+         "3 C21"),
+ "C22": ("exploration",
+         "bounded-exhaustive differential check of the real decoder against an independent reference decoder over the C20 domain",
+         "Every datagram of the C20 domain that the real decoder accepts is decoded by the independent reference (header length by the form actually used, fields at their specified offsets) and compared field by field; the packet is re-encoded and the re-encoding decoded again and compared (up to ignored flag bits, DISCONNECT duration 0 and the length field).",
+         "refsn is the trusted reference; inputs outside the C20 domain are not covered.",
+         "3 C22"),
 }
 
 REASON_PENDING = "check not built yet in this round (planned in DESIGN.md section 3); nothing is claimed for it"
